@@ -48,10 +48,10 @@ ASSUMPTIONS = [
     'sheets of the virtual file system are delivered as str with no HTTP encoding',
 ]
 FLOORS = {
-    'quick': {'outcomes': 400, 'evaluations': 30000, 'set:locations': 7, 'set:contents': 13, 'counter:flatten.wrapped': 500,
-              'counter:flatten.kept-missing': 500, 'counter:flatten.kept-unwrappable': 300, 'counter:urls.rebased-compared': 5000},
-    'thorough': {'outcomes': 1500, 'evaluations': 300000, 'set:locations': 7, 'set:contents': 13, 'counter:flatten.wrapped': 5000,
-                 'counter:flatten.kept-missing': 5000, 'counter:flatten.kept-unwrappable': 3000, 'counter:urls.rebased-compared': 50000},
+    'quick': {'outcomes': 1000, 'evaluations': 50000, 'set:locations': 7, 'set:contents': 13, 'set:p1.contexts': 5, 'counter:flatten.wrapped': 5000,
+              'counter:flatten.kept-missing': 4000, 'counter:flatten.kept-unwrappable': 2000, 'counter:urls.rebased-compared': 30000},
+    'thorough': {'outcomes': 3000, 'evaluations': 500000, 'set:locations': 7, 'set:contents': 13, 'set:p1.contexts': 5, 'counter:flatten.wrapped': 50000,
+                 'counter:flatten.kept-missing': 40000, 'counter:flatten.kept-unwrappable': 20000, 'counter:urls.rebased-compared': 300000},
 }
 
 WD = 10  # watchdog seconds per library call
@@ -108,6 +108,20 @@ class Net:
 
     def close(self):
         _NET.update(vfs=None, serve_default=False, default_log=None)
+
+
+def _case_size(case):
+    """simplest-first order of witnesses: fewer sheets / rules, then fewer choices off default, then shorter text"""
+    if case.get('kind') == 'flatten':
+        tree = case['tree']
+        off = sum(1 for e in _tree_edges(tree) if e != EDGE_DEFAULT) + sum(1 for c in _tree_contents(tree) if c != CONTENT_DEFAULT)
+        return _tree_nodes(tree) * 100000 + off * 10000 + (0 if case['mode'] == MODES[0] else 1000) + len(jdump(case))
+    urls = sum(2 if f == 'multi' else 1 for r in case['rules'] for f in r[1:] if f not in ('absent', 'none'))
+    return len(case['rules']) * 100000 + len(case['imports']) * 10000 + urls * 1000 + len(jdump(case))
+
+
+def _viol(res, clause, sig, case, expected=None, observed=None, note=''):
+    return res.violation(clause, sig, case, expected, observed, size=_case_size(case), note=note)
 
 
 # ----------------------------------------------------------------------------------------
@@ -322,9 +336,9 @@ def _p1_parse(res, case, text):
         with guard.watchdog(WD):
             return cssutils.CSSParser(fetcher=_p1_fetch).parseString(text, href=P1_HREF)
     except guard.Timeout:
-        res.violation('C19.geturls', 'timeout-parse', case, 'terminates', 'timeout')
+        _viol(res, 'C19.geturls', 'timeout-parse', case, 'terminates', 'timeout')
     except Exception as e:
-        res.violation('C19.geturls', 'parse|' + guard.crash_site(e), case, 'a sheet', repr(e))
+        _viol(res, 'C19.geturls', 'parse|' + guard.crash_site(e), case, 'a sheet', repr(e))
     return None
 
 
@@ -338,9 +352,9 @@ def _call(res, clause, case, fn):
         with guard.watchdog(WD):
             return True, fn()
     except guard.Timeout:
-        res.violation(clause, 'timeout', case, 'terminates', f'no answer within {WD} s')
+        _viol(res, clause, 'timeout', case, 'terminates', f'no answer within {WD} s')
     except Exception as e:
-        res.violation(clause, guard.crash_site(e), case, 'no exception', repr(e)[:300])
+        _viol(res, clause, guard.crash_site(e), case, 'no exception', repr(e)[:300])
     return False, None
 
 
@@ -381,7 +395,7 @@ def run_urls_case(res, case):
             sym = 'extra-or-twice'
         else:
             sym = 'value-differs'
-        res.violation('C19.geturls', sym, case, want, got, note=text)
+        _viol(res, 'C19.geturls', sym, case, want, got, note=text)
         return
     before = sh.cssText
     proj_before = proj_sheet(sh, lambda u: u)
@@ -392,9 +406,9 @@ def run_urls_case(res, case):
     if ok:
         ok, after = _call(res, 'C19.replace.identity', case, lambda: sh.cssText)
         if ok and after != before:
-            res.violation('C19.replace.identity', 'cssText-changed|' + _ctxs(case), case, before.decode(), after.decode(), note=text)
+            _viol(res, 'C19.replace.identity', 'cssText-changed|' + _ctxs(case), case, before.decode(), after.decode(), note=text)
         elif ok and proj_sheet(sh, lambda u: u) != proj_before:
-            res.violation('C19.replace.identity', 'dom-changed|' + _ctxs(case), case, proj_before, proj_sheet(sh, lambda u: u), note=text)
+            _viol(res, 'C19.replace.identity', 'dom-changed|' + _ctxs(case), case, proj_before, proj_sheet(sh, lambda u: u), note=text)
 
     # -- counting replacer: called exactly once per URL
     for ignore in (False, True):
@@ -414,7 +428,7 @@ def run_urls_case(res, case):
             twice = [u for u in set(calls) if calls.count(u) > exp_calls.count(u)]
             miss = [u for u in set(exp_calls) if calls.count(u) < exp_calls.count(u)]
             sym = ('called-more-than-once|' + _where(sheet, twice[0])) if twice else ('not-called|' + _where(sheet, miss[0]))
-            res.violation('C19.replace.count', sym + ('|ignoreImportRules' if ignore else ''), case, exp_calls, calls, note=text)
+            _viol(res, 'C19.replace.count', sym + ('|ignoreImportRules' if ignore else ''), case, exp_calls, calls, note=text)
 
     # -- tagging replacer: exactly the URLs change, nothing else
     for ignore in (False, True):
@@ -443,7 +457,7 @@ def run_urls_case(res, case):
                 sym = 'changing-replacer-called-with-a-value-that-is-no-url-of-the-sheet'
             else:
                 sym = 'changing-replacer-not-called|' + _where(sheet, miss[0])
-            res.violation(clause, sym, case, exp_calls, tcalls, note=text)
+            _viol(res, clause, sym, case, exp_calls, tcalls, note=text)
             continue
         ok, got = _call(res, clause, case, lambda: list(cssutils.getUrls(sh)))
         if not ok:
@@ -452,18 +466,18 @@ def run_urls_case(res, case):
         if got != exp:
             i = _first_diff(got, exp)
             what = 'import' if i < n_imp else _where(sheet, want[i])
-            res.violation(clause, f'urls-after-replace|{what}', case, exp, got, note=text)
+            _viol(res, clause, f'urls-after-replace|{what}', case, exp, got, note=text)
             continue
         ok, after = _call(res, clause, case, lambda: sh.cssText)
         if not ok:
             continue
         # everything but the URLs is untouched: undoing the tag textually gives the old serialisation byte for byte
         if after.replace(TAG.encode(), b'') != before:
-            res.violation(clause, 'something-else-changed|' + _ctxs(case), case, before.decode(), after.decode(), note=text)
+            _viol(res, clause, 'something-else-changed|' + _ctxs(case), case, before.decode(), after.decode(), note=text)
         elif after.count(TAG.encode()) != sum(1 for a, b in zip(exp, want) if a != b):
-            res.violation(clause, 'tag-count-in-text|' + _ctxs(case), case, len(want), after.count(TAG.encode()), note=text)
+            _viol(res, clause, 'tag-count-in-text|' + _ctxs(case), case, len(want), after.count(TAG.encode()), note=text)
         elif _mask(proj_sheet(sh, lambda u: u)) != _mask(proj_before):
-            res.violation(clause, 'dom-changed|' + _ctxs(case), case, _mask(proj_before), _mask(proj_sheet(sh, lambda u: u)), note=text)
+            _viol(res, clause, 'dom-changed|' + _ctxs(case), case, _mask(proj_before), _mask(proj_sheet(sh, lambda u: u)), note=text)
         res.outcomes.add(h64(['tag', ignore, len(exp), _ctxs(case)]))
 
 
@@ -628,10 +642,10 @@ def flatten_observe(res, case, texts, top, mode, tmp=None):
                     order = [r.type for r in flat.cssRules]
                     p = proj_sheet(flat, lambda u: u)
             except guard.Timeout:
-                res.violation('C19.flatten.total', 'timeout|resolve', case, 'terminates', f'no answer within {WD} s')
+                _viol(res, 'C19.flatten.total', 'timeout|resolve', case, 'terminates', f'no answer within {WD} s')
                 return None
             except Exception as e:
-                res.violation('C19.flatten.total', f'{guard.crash_site(e)}|{_msg_class(e)}', case, 'a flat sheet', repr(e)[:300])
+                _viol(res, 'C19.flatten.total', f'{guard.crash_site(e)}|{_msg_class(e)}', case, 'a flat sheet', repr(e)[:300])
                 return None
             return {'proj': p, 'base': base, 'net': net, 'n_parse': n_parse, 'order': order, 'text': None}
         # csscombine
@@ -651,29 +665,29 @@ def flatten_observe(res, case, texts, top, mode, tmp=None):
             with guard.watchdog(WD):
                 out = cssutils.script.csscombine(**kw)
         except guard.Timeout:
-            res.violation('C19.flatten.total', 'timeout|csscombine', case, 'terminates', f'no answer within {WD} s')
+            _viol(res, 'C19.flatten.total', 'timeout|csscombine', case, 'terminates', f'no answer within {WD} s')
             return None
         except BaseException as e:  # csscombine may call sys.exit
             if isinstance(e, (KeyboardInterrupt, guard.Timeout)):
                 raise
-            res.violation('C19.flatten.total', f'{guard.crash_site(e)}|{_msg_class(e)}', case, 'the combined text', repr(e)[:300])
+            _viol(res, 'C19.flatten.total', f'{guard.crash_site(e)}|{_msg_class(e)}', case, 'the combined text', repr(e)[:300])
             return None
         log_after = (list(net.log), list(net.dlog))
         n_parse = _NET['mark']
         res.clauses['C19.combine.output'] += 1
         if cssutils.ser is not ser_before:
-            res.violation('C19.combine.output', 'global-serializer-not-restored', case, 'cssutils.ser as before', 'another serializer')
+            _viol(res, 'C19.combine.output', 'global-serializer-not-restored', case, 'cssutils.ser as before', 'another serializer')
         if not isinstance(out, bytes):
-            res.violation('C19.combine.output', 'not-bytes', case, 'bytes', type(out).__name__)
+            _viol(res, 'C19.combine.output', 'not-bytes', case, 'bytes', type(out).__name__)
             return None
         try:
             decoded = out.decode(enc or 'utf-8')
         except UnicodeDecodeError as e:
-            res.violation('C19.combine.output', f'not-decodable-as-target-encoding|{enc}', case, f'bytes in {enc or "utf-8"}', repr(e)[:200])
+            _viol(res, 'C19.combine.output', f'not-decodable-as-target-encoding|{enc}', case, f'bytes in {enc or "utf-8"}', repr(e)[:200])
             return None
         has_charset = decoded.startswith('@charset')
         if has_charset != bool(enc) or (enc and not decoded.startswith(f'@charset "{enc}";')):
-            res.violation('C19.combine.output', f'charset-rule|target={enc}', case, f'@charset "{enc}"' if enc else 'no @charset', decoded[:40])
+            _viol(res, 'C19.combine.output', f'charset-rule|target={enc}', case, f'@charset "{enc}"' if enc else 'no @charset', decoded[:40])
         # the text itself must be a valid sheet: @charset, @import, @namespace, then the rest
         res.clauses['C19.flatten.order'] += 1
         names = {'@charset': 0, '@import': 1, '@namespace': 2, '{': 3}
@@ -681,7 +695,7 @@ def flatten_observe(res, case, texts, top, mode, tmp=None):
         label = ['charset', 'import', 'namespace', 'rule']
         for a, b in zip(seq, seq[1:]):
             if a > b:
-                res.violation('C19.flatten.order', f'{label[a]}-before-{label[b]}', case, 'charset < import < namespace < rules', [label[x] for x in seq], note=decoded[:600])
+                _viol(res, 'C19.flatten.order', f'{label[a]}-before-{label[b]}', case, 'charset < import < namespace < rules', [label[x] for x in seq], note=decoded[:600])
                 return None
         # read it back (default preferences, fetches of kept @import rules answered with "unavailable")
         guard.pristine()
@@ -691,19 +705,19 @@ def flatten_observe(res, case, texts, top, mode, tmp=None):
                 order = [r.type for r in back.cssRules]
                 p = proj_sheet(back, lambda u: u)
         except guard.Timeout:
-            res.violation('C19.combine.output', 'timeout-reparse', case, 'terminates', 'timeout')
+            _viol(res, 'C19.combine.output', 'timeout-reparse', case, 'terminates', 'timeout')
             return None
         except Exception as e:
-            res.violation('C19.combine.output', 'reparse|' + guard.crash_site(e), case, 'parsable output', repr(e)[:300])
+            _viol(res, 'C19.combine.output', 'reparse|' + guard.crash_site(e), case, 'parsable output', repr(e)[:300])
             return None
         net.log[:], net.dlog[:] = log_after
         errs = [m for lv, m in h.records if lv in ('ERROR', 'CRITICAL', 'FATAL') or (lv == 'WARNING' and 'While processing imported' not in m)]
         if errs:
-            res.violation('C19.combine.output', 'output-not-clean-css|' + _msg_class(errs[0]), case, 'output parses without complaint', errs[:3], note=decoded[:600])
+            _viol(res, 'C19.combine.output', 'output-not-clean-css|' + _msg_class(errs[0]), case, 'output parses without complaint', errs[:3], note=decoded[:600])
             return None
         if p and p[0][0] == 'charset':
             if p[0][1] != (enc or 'utf-8'):
-                res.violation('C19.combine.output', f'charset-rule|target={enc}', case, enc, p[0][1])
+                _viol(res, 'C19.combine.output', f'charset-rule|target={enc}', case, enc, p[0][1])
             p = p[1:]
         return {'proj': p, 'base': top, 'net': net, 'n_parse': n_parse, 'order': order, 'text': decoded}
     finally:
@@ -764,10 +778,10 @@ def judge_flat(res, case, vfs, info, top, obs, mode):
     names = {0: 'charset', 1: 'import', 2: 'namespace', 3: 'rule'}
     for a, b in zip(seq, seq[1:]):
         if a > b:
-            res.violation('C19.flatten.order', f'{names[a]}-before-{names[b]}', case, 'charset < import < namespace < rules', [names[x] for x in seq], note=note)
+            _viol(res, 'C19.flatten.order', f'{names[a]}-before-{names[b]}', case, 'charset < import < namespace < rules', [names[x] for x in seq], note=note)
             break
     if base != top:
-        res.violation('C19.flatten.rules', 'href-of-combined-sheet', case, top, base)
+        _viol(res, 'C19.flatten.rules', 'href-of-combined-sheet', case, top, base)
         return
 
     got_imports = [r for r in obs['proj'] if r[0] == 'import']
@@ -794,16 +808,16 @@ def judge_flat(res, case, vfs, info, top, obs, mode):
                 sig = 'nested-kept-import-href-not-rebased'
             else:
                 sig = f'kept-import-resolves-elsewhere|{ref.url_diff(tgt, gi[i][0])}|{why}|nested={bool(parent_path)}'
-            res.violation(
+            _viol(res, 
                 'C19.flatten.urls', sig, case, exp['imports'], gi,
                 note=f'href {orig!r} of the {why} target of sheet {name[:-1] or "t"!r} is {got_imports[i][1]!r} in the combined sheet\n{note}',
             )
         else:
-            res.violation('C19.flatten.rules', f'kept-imports|expected={len(exp["imports"])}|got={len(gi)}', case, exp['imports'], gi, note=note)
+            _viol(res, 'C19.flatten.rules', f'kept-imports|expected={len(exp["imports"])}|got={len(gi)}', case, exp['imports'], gi, note=note)
     # -- namespaces
     if got_ns != exp['namespaces']:
         ok = False
-        res.violation('C19.flatten.rules', f'namespaces|expected={len(exp["namespaces"])}|got={len(got_ns)}', case, exp['namespaces'], got_ns, note=note)
+        _viol(res, 'C19.flatten.rules', f'namespaces|expected={len(exp["namespaces"])}|got={len(got_ns)}', case, exp['namespaces'], got_ns, note=note)
     # -- every other rule, cascade order, urls masked
     mg, me = _mask(got_body), _mask(exp['body'])
     if mg != me:
@@ -822,7 +836,7 @@ def judge_flat(res, case, vfs, info, top, obs, mode):
                 sym = f'{e[0]}-content'
         else:
             sym = f'expected={_rule_kind(e)}|got={_rule_kind(g)}'
-        res.violation('C19.flatten.rules', 'body|' + sym, case, me[max(0, i - 1):i + 2], mg[max(0, i - 1):i + 2], note=note)
+        _viol(res, 'C19.flatten.rules', 'body|' + sym, case, me[max(0, i - 1):i + 2], mg[max(0, i - 1):i + 2], note=note)
     if not ok:
         return
 
@@ -849,11 +863,11 @@ def judge_flat(res, case, vfs, info, top, obs, mode):
                 sig = f'path|url={_url_kind(orig or "")}|imports={"+".join(sorted({e[0] for e in path}))}'
             if sig not in seen:
                 seen.add(sig)
-                res.violation('C19.flatten.urls', sig, case, w, g, note=f'{orig!r} in sheet {name!r} became {r!r}\n{note}')
+                _viol(res, 'C19.flatten.urls', sig, case, w, g, note=f'{orig!r} in sheet {name!r} became {r!r}\n{note}')
         elif ref.is_absolute(w) and orig == w and r != w:
             if 'abs' not in seen:
                 seen.add('abs')
-                res.violation('C19.flatten.urls', 'absolute-url-rewritten', case, w, r, note=note)
+                _viol(res, 'C19.flatten.urls', 'absolute-url-rewritten', case, w, r, note=note)
     res.counters['flatten.wrapped'] += sum(1 for r in exp['body'] if r[0] == 'media' and r[1] == 'print')
     for tgt, _m in exp['imports']:
         name = [n for n, inf in info.items() if inf['url'] == tgt][0]
@@ -870,34 +884,34 @@ def judge_fetch(res, case, vfs, info, top, obs, mode):
     if kind == 'resolve':
         # the sheet was parsed with its own fetcher: the default fetcher has no business here
         if net.dlog:
-            res.violation('C19.fetch', 'default-fetcher-used-instead-of-the-sheets-fetcher', case, [], net.dlog)
+            _viol(res, 'C19.fetch', 'default-fetcher-used-instead-of-the-sheets-fetcher', case, [], net.dlog)
         parse_log, flat_log = net.log[:n_parse], net.log[n_parse:] + net.dlog
     else:
         # csscombine builds its own parser: the (replaced) default fetcher is the fetcher
         if n_parse is None:
-            res.violation('C19.fetch', 'csscombine-did-not-call-resolveImports', case, 'a call', 'none')
+            _viol(res, 'C19.fetch', 'csscombine-did-not-call-resolveImports', case, 'a call', 'none')
             return
         parse_log, flat_log = net.dlog[:n_parse], net.dlog[n_parse:]
         if kind == 'combine-url':
             # the top sheet itself comes through the fetcher as well
             if (parse_log + flat_log).count(top) != 1:
-                res.violation('C19.fetch', 'top-sheet-not-fetched-once', case, 1, (parse_log + flat_log).count(top))
+                _viol(res, 'C19.fetch', 'top-sheet-not-fetched-once', case, 1, (parse_log + flat_log).count(top))
             parse_log = [u for u in parse_log if u != top]
     all_log = parse_log + flat_log
     for u in avail:
         c = all_log.count(u)
         if c != 1:
-            res.violation('C19.fetch', 'available-target-' + ('not-fetched' if c == 0 else 'fetched-more-than-once'), case, {u: 1}, {u: c})
+            _viol(res, 'C19.fetch', 'available-target-' + ('not-fetched' if c == 0 else 'fetched-more-than-once'), case, {u: 1}, {u: c})
             break
     other = [u for u in all_log if u not in avail and u not in missing]
     if other:
-        res.violation('C19.fetch', 'url-that-is-no-import-target-fetched', case, sorted(set(avail + missing)), other)
+        _viol(res, 'C19.fetch', 'url-that-is-no-import-target-fetched', case, sorted(set(avail + missing)), other)
     for u in missing[:1]:  # the first missing target of a case is judged; the others behave alike
         c_parse, c_flat = parse_log.count(u), flat_log.count(u)
         if c_parse != 1:
-            res.violation('C19.fetch', 'missing-target-fetched-more-than-once-while-parsing' if c_parse else 'missing-target-never-tried', case, {u: 1}, {u: c_parse})
+            _viol(res, 'C19.fetch', 'missing-target-fetched-more-than-once-while-parsing' if c_parse else 'missing-target-never-tried', case, {u: 1}, {u: c_parse})
         if c_flat:
-            res.violation('C19.fetch', 'missing-target-fetched-again-while-flattening', case, {u: 0}, {u: c_flat})
+            _viol(res, 'C19.fetch', 'missing-target-fetched-again-while-flattening', case, {u: 0}, {u: c_flat})
     res.outcomes.add(h64(['fetch', kind, len(avail), len(missing), len(all_log)]))
 
 
